@@ -966,3 +966,12 @@ def _dyn_add_assign(e, c, a):
 @model(r'<(u8|u16|u32|u64|usize|i8|i16|i32|i64|isize) as AddAssign<&\1>>::add_assign|<(u8|u16|u32|u64|usize|i8|i16|i32|i64|isize) as AddAssign>::add_assign')
 def _int_add_assign(e, c, a):
     return _dyn_add_assign(e, c, a)
+
+
+@dyn('ToString', 'to_string')
+def _dyn_to_string(e, c, a):
+    v = deref_all(a[0])
+    if isinstance(v, (Str, StrRef)):
+        from .m_str import str_bytes
+        return Str(list(str_bytes(v)))
+    return mk_str('<%s>' % (getattr(v, 'ty', None) or type(v).__name__))      # Display of an error value: text abstracted (formatting is not the subject)
